@@ -12,6 +12,7 @@ import (
 	"fmt"
 	"io"
 	"strings"
+	"sync"
 	"testing"
 	"time"
 
@@ -87,6 +88,47 @@ func c01RegistryProbe(m *vk.M) bool {
 	return false
 }
 
+// c01Ctx is a caller context whose state the harness flips deterministically
+// (no timers): before the call or while the invoker/handler runs.
+type c01Ctx struct {
+	context.Context
+	mu   sync.Mutex
+	err  error
+	done chan struct{}
+}
+
+func c01NewCtx() *c01Ctx { return &c01Ctx{Context: context.Background(), done: make(chan struct{})} }
+
+func (c *c01Ctx) end(err error) {
+	c.mu.Lock()
+	if c.err == nil {
+		c.err = err
+		close(c.done)
+	}
+	c.mu.Unlock()
+}
+func (c *c01Ctx) Err() error {
+	c.mu.Lock()
+	defer c.mu.Unlock()
+	return c.err
+}
+func (c *c01Ctx) Done() <-chan struct{} { return c.done }
+func (c *c01Ctx) Deadline() (time.Time, bool) {
+	return time.Time{}, false
+}
+
+// caller-context kinds: how the caller's context ends and when
+var c01CtxKinds = []struct {
+	name   string
+	err    error
+	during bool
+}{
+	{"ctx-cancelled-before-call", context.Canceled, false},
+	{"ctx-deadline-expired-before-call", context.DeadlineExceeded, false},
+	{"ctx-cancelled-during-call", context.Canceled, true},
+	{"ctx-deadline-expires-during-call", context.DeadlineExceeded, true},
+}
+
 func TestVerifC01ServerInterceptorTable(t *testing.T) {
 	m := vk.New(t, "C01", "serverinterceptors.UnaryBreakerInterceptor and StreamBreakerInterceptor with a handler answering one gRPC code, one FullMethod (= one named breaker) per row and flavour, virtual clock frozen: benign code x150 and each error without a gRPC status (plain, custom type, raw context.Canceled, io.EOF, wrapped benign status) x150 => handler always runs; failing code x400 => at least one call short-circuited with ErrServiceUnavailable; 10000 mixed benign codes => 0 rejections; non-trivial = row completed (benign) / rejected (failing)")
 	defer m.Done()
@@ -120,6 +162,56 @@ func TestVerifC01ServerInterceptorTable(t *testing.T) {
 		return callErr(flavour, method, c01CodeErr(c))
 	}
 	tag := fmt.Sprintf("%d.%d", vk.Seed(), vk.Seq())
+	// ---- unary calls whose request context is cancelled / past its deadline (before or during the
+	// handler): the outcome class is the status the handler answered, whatever ctx.Err() says
+	for ki, ck := range c01CtxKinds {
+		for c := gcodes.Code(0); c <= gcodes.Unauthenticated; c++ {
+			name := c.String()
+			method := fmt.Sprintf("/c01.%s.%s/%s", tag, ck.name, name)
+			desc := fmt.Sprintf("case=%d;%s, unary handler always answers %s", 300+ki*20+int(c), ck.name, name)
+			one := func() (ran bool, err error) {
+				ctx := c01NewCtx()
+				if !ck.during {
+					ctx.end(ck.err)
+				}
+				_, err = UnaryBreakerInterceptor(ctx, nil, &grpc.UnaryServerInfo{FullMethod: method},
+					func(hctx context.Context, req interface{}) (interface{}, error) {
+						ran = true
+						if ck.during {
+							ctx.end(ck.err)
+						}
+						return nil, c01CodeErr(c)
+					})
+				return
+			}
+			if !c01Failing[c] {
+				okRow := true
+				for i := 0; i < perBenign; i++ {
+					ran, err := one()
+					m.Count("calls_benign_request_ctx_ended", 1)
+					if !ran {
+						m.Violate("C01:benign:grpc-server-unary:"+ck.name+":"+name+":rejected", desc, "call #%d short-circuited (%v) after only %s outcomes", i, err, name)
+						okRow = false
+						break
+					}
+				}
+				m.Case(ck.name+"-benign-"+name, okRow)
+				continue
+			}
+			rej := 0
+			for i := 0; i < perBad; i++ {
+				if ran, _ := one(); !ran {
+					rej++
+				}
+				m.Count("calls_failing_request_ctx_ended", 1)
+			}
+			m.Count("calls_rejected_request_ctx_ended", int64(rej))
+			if rej == 0 {
+				m.Violate("C01:nonbenign:grpc-server-unary:"+ck.name+":"+name+":never-cut-off", desc, "%d consecutive %s answers on calls whose request context was %s and the handler ran every time", perBad, name, ck.name)
+			}
+			m.Case(ck.name+"-failing-"+name, rej > 0)
+		}
+	}
 	for fi, flavour := range []string{"unary", "stream"} {
 		var benign []gcodes.Code
 		for c := gcodes.Code(0); c <= gcodes.Unauthenticated; c++ {
